@@ -873,13 +873,81 @@ func runTAB05(p *Prog, r *RuleRun) {
 		})
 		return name
 	}
+	// names called by recvT.m; transitively through other methods of recvT (private helpers such as
+	// encoder.write) when deep is set
+	callsOf := func(recvT, m string, deep bool) map[string]bool {
+		out := map[string]bool{}
+		seen := map[string]bool{}
+		var visit func(m string)
+		visit = func(m string) {
+			if seen[m] {
+				return
+			}
+			seen[m] = true
+			fd := findFuncDecl(pk, recvT+"."+m)
+			if fd == nil || fd.Body == nil {
+				return
+			}
+			ast.Inspect(fd.Body, func(n ast.Node) bool {
+				if ce, ok := n.(*ast.CallExpr); ok {
+					switch f := ce.Fun.(type) {
+					case *ast.SelectorExpr:
+						out[f.Sel.Name] = true
+						if deep && findFuncDecl(pk, recvT+"."+f.Sel.Name) != nil {
+							if tv, ok := pk.TypesInfo.Types[f.X]; ok && strings.HasSuffix(strings.TrimPrefix(tv.Type.String(), "*"), "."+recvT) {
+								visit(f.Sel.Name)
+							}
+						}
+					case *ast.Ident:
+						out[f.Name] = true
+					}
+				}
+				return true
+			})
+		}
+		visit(m)
+		return out
+	}
+	// the kind of a primitive is what it does, not what it is called: a timestamp primitive (un)marshals a
+	// time.Time, a varint primitive calls (Put)Uvarint itself, everything else that moves bytes is "bytes"
+	kindOf := func(recvT, m string) string {
+		deep, direct := callsOf(recvT, m, true), callsOf(recvT, m, false)
+		switch {
+		case deep["MarshalBinary"] || deep["UnmarshalBinary"]:
+			return "time"
+		case direct["PutUvarint"] || direct["Uvarint"]:
+			return "varint"
+		case deep["Write"] || deep["copy"]:
+			return "bytes"
+		}
+		return "?" + m
+	}
+	recvName := func(e ast.Expr) string {
+		tv, ok := pk.TypesInfo.Types[e]
+		if !ok {
+			return ""
+		}
+		t := tv.Type
+		if pt, ok := t.(*types.Pointer); ok {
+			t = pt.Elem()
+		}
+		if n, ok := t.(*types.Named); ok {
+			return n.Obj().Name()
+		}
+		return ""
+	}
 	var es, ds []step
+	encT, decT := "", ""
+	prims := map[string]map[string]string{"enc": {}, "dec": {}} // kind -> method name
 	for _, st := range enc.Body.List {
 		if xs, ok := st.(*ast.ExprStmt); ok {
 			if ce, ok := xs.X.(*ast.CallExpr); ok {
 				if se, ok := ce.Fun.(*ast.SelectorExpr); ok && len(ce.Args) == 1 {
 					if f := fieldOf(ce.Args[0]); f != "" {
-						es = append(es, step{se.Sel.Name, f})
+						encT = recvName(se.X)
+						k := kindOf(encT, se.Sel.Name)
+						prims["enc"][k] = se.Sel.Name
+						es = append(es, step{k, f})
 					}
 				}
 			}
@@ -898,12 +966,15 @@ func runTAB05(p *Prog, r *RuleRun) {
 		ast.Inspect(as.Rhs[0], func(n ast.Node) bool {
 			if ce, ok := n.(*ast.CallExpr); ok {
 				if se, ok := ce.Fun.(*ast.SelectorExpr); ok && len(ce.Args) == 0 {
+					decT = recvName(se.X)
 					prim = se.Sel.Name
 				}
 			}
 			return true
 		})
-		ds = append(ds, step{prim, f})
+		k := kindOf(decT, prim)
+		prims["dec"][k] = prim
+		ds = append(ds, step{k, f})
 	}
 	epos, dpos := p.Position(enc.Pos()), p.Position(dec.Pos())
 	r.Check(len(es) > 0 && reflect.DeepEqual(es, ds), "sequence", epos, fmt.Sprintf("Encode and Decode use the same (primitive, field) sequence: %v", es),
@@ -930,43 +1001,9 @@ func runTAB05(p *Prog, r *RuleRun) {
 		}
 	}
 	// paired primitives
-	// names called by recvT.m, following calls to other methods of recvT (private helpers such as encoder.write)
-	calls := func(recvT, m string) map[string]bool {
-		out := map[string]bool{}
-		seen := map[string]bool{}
-		var visit func(m string)
-		visit = func(m string) {
-			if seen[m] {
-				return
-			}
-			seen[m] = true
-			fd := findFuncDecl(pk, recvT+"."+m)
-			if fd == nil || fd.Body == nil {
-				return
-			}
-			ast.Inspect(fd.Body, func(n ast.Node) bool {
-				if ce, ok := n.(*ast.CallExpr); ok {
-					switch f := ce.Fun.(type) {
-					case *ast.SelectorExpr:
-						out[f.Sel.Name] = true
-						if findFuncDecl(pk, recvT+"."+f.Sel.Name) != nil {
-							if tv, ok := pk.TypesInfo.Types[f.X]; ok && strings.HasSuffix(strings.TrimPrefix(tv.Type.String(), "*"), "."+recvT) {
-								visit(f.Sel.Name)
-							}
-						}
-					case *ast.Ident:
-						out[f.Name] = true
-					}
-				}
-				return true
-			})
-		}
-		visit(m)
-		return out
-	}
 	// time.MarshalBinary is variable length (15 bytes, 16 for zone offsets with seconds) and the field is the
 	// last one: the decoder must hand UnmarshalBinary everything that is left, not a fixed-length prefix
-	if fd := findFuncDecl(pk, "decoder.time"); fd != nil {
+	if fd := findFuncDecl(pk, decT+"."+prims["dec"]["time"]); fd != nil {
 		whole, found := false, false
 		ast.Inspect(fd.Body, func(n ast.Node) bool {
 			ce, ok := n.(*ast.CallExpr)
@@ -989,13 +1026,20 @@ func runTAB05(p *Prog, r *RuleRun) {
 		r.Check(found && whole, "pair:time:whole-rest", p.Position(fd.Pos()), "the timestamp decoder passes all remaining bytes to UnmarshalBinary (the encoding is 15 or 16 bytes long)",
 			"the timestamp decoder hands UnmarshalBinary a fixed-length prefix: time.MarshalBinary emits 16 bytes for zone offsets that are not whole minutes, so such AppendedAt values are stored and acknowledged but can never be decoded again")
 	} else {
-		r.Unknown("pair:time:whole-rest", dpos, "decoder.time not found")
+		r.Unknown("pair:time:whole-rest", dpos, "the decoder's timestamp primitive was not found")
 	}
-	pairs := []struct{ m, e, d string }{{"varint", "PutUvarint", "Uvarint"}, {"bytes", "varint", "varint"}, {"bytes", "Write", "copy"}, {"time", "MarshalBinary", "UnmarshalBinary"}}
+	// what each side of a primitive must call; "@varint" = the side's own varint primitive (the length prefix)
+	pairs := []struct{ kind, e, d string }{{"varint", "PutUvarint", "Uvarint"}, {"bytes", "@varint", "@varint"}, {"bytes", "Write", "copy"}, {"time", "MarshalBinary", "UnmarshalBinary"}}
 	for _, pr := range pairs {
-		ok := calls("encoder", pr.m)[pr.e] && calls("decoder", pr.m)[pr.d]
-		r.Check(ok, "pair:"+pr.m+":"+pr.e, dpos, fmt.Sprintf("encoder.%s uses %s, decoder.%s uses %s", pr.m, pr.e, pr.m, pr.d),
-			fmt.Sprintf("primitive pairing broken for %q: encoder must use %s and decoder %s", pr.m, pr.e, pr.d))
+		em, dm := prims["enc"][pr.kind], prims["dec"][pr.kind]
+		e, d := pr.e, pr.d
+		label := pr.e
+		if e == "@varint" {
+			e, d, label = prims["enc"]["varint"], prims["dec"]["varint"], "varint"
+		}
+		ok := em != "" && dm != "" && e != "" && d != "" && callsOf(encT, em, true)[e] && callsOf(decT, dm, true)[d]
+		r.Check(ok, "pair:"+pr.kind+":"+label, dpos, fmt.Sprintf("%s.%s uses %s, %s.%s uses %s", encT, em, e, decT, dm, d),
+			fmt.Sprintf("primitive pairing broken for the %s primitive: the encoder side (%s.%s) must use %s and the decoder side (%s.%s) %s", pr.kind, encT, em, pr.e, decT, dm, pr.d))
 	}
 }
 
